@@ -72,27 +72,28 @@ impl binrw::BinRead for Mso {
         let plid = PlayerId::read_options(reader, endian, ())?;
         let usertype = MsoUserType::read_options(reader, endian, ())?;
         let textstart = u8::read_options(reader, endian, ())?;
-        let (textstart, msg) = if textstart > 0 {
-            let name = Vec::<u8>::read_options(
-                reader,
-                endian,
-                binrw::VecArgs {
-                    count: textstart as usize,
-                    inner: (),
-                },
-            )?;
-
-            let msg: Vec<u8> = binrw::helpers::until_eof(reader, endian, ())?;
-
-            let name = codepages::to_lossy_string(strip_trailing_nul(&name));
-            let msg = codepages::to_lossy_string(strip_trailing_nul(&msg));
-            (name.len() as u8, format!("{name}{msg}"))
+        // The name and the message are a single LFS string: a codepage selected within the name
+        // stays in force for the text that follows it, so the whole field is decoded in one go.
+        // `textstart` is an offset into the wire bytes; translate it into an offset into the
+        // decoded string by decoding the name part on its own.
+        let pos = reader.stream_position()?;
+        let raw: Vec<u8> = binrw::helpers::until_eof(reader, endian, ())?;
+        let raw = strip_trailing_nul(&raw);
+        let msg = codepages::to_lossy_string(raw).to_string();
+        let textstart = if textstart > 0 {
+            let name = codepages::to_lossy_string(&raw[..(textstart as usize).min(raw.len())]);
+            if !msg.starts_with(name.as_ref()) {
+                return Err(binrw::Error::AssertFail {
+                    pos,
+                    message: "textstart does not fall on a character boundary".into(),
+                });
+            }
+            u8::try_from(name.len()).map_err(|_| binrw::Error::AssertFail {
+                pos,
+                message: "textstart does not fit once the name is decoded".into(),
+            })?
         } else {
-            let msg: Vec<u8> = binrw::helpers::until_eof(reader, endian, ())?;
-            (
-                0_u8,
-                codepages::to_lossy_string(strip_trailing_nul(&msg)).to_string(),
-            )
+            0_u8
         };
 
         Ok(Self {
@@ -124,7 +125,14 @@ impl binrw::BinWrite for Mso {
         // if we need to encode the string, we need to move the textstart transparently for the
         // user
         let textstart = if self.textstart > 0 {
-            let name = &self.msg[..self.textstart as usize];
+            let pos = writer.stream_position()?;
+            let name = self
+                .msg
+                .get(..self.textstart as usize)
+                .ok_or_else(|| binrw::Error::AssertFail {
+                    pos,
+                    message: "textstart must be a character boundary within msg".into(),
+                })?;
             let textstart = codepages::to_lossy_bytes(name).len();
 
             textstart as u8
